@@ -58,40 +58,41 @@ def _true_score(rule, score):
   return score
 
 
-def build_state(rule, axes, layout, averaged=False):
+def build_state(rule, axes, layout, averaged=False, rev=False):
   """axes: list of (dim, score); layout 'single' or 'paired'.  With
   averaged=True two checkpoints are returned whose scores average to the
-  requested ones (2s and 0)."""
+  requested ones (2s and 0).  rev=True names the layers in the opposite
+  order: the routine walks a Python set of layer names, so the order in
+  which groups and tied scores are visited follows the names."""
   if averaged:
-    hi = build_state(rule, [(d, 2 * s) for d, s in axes], layout)[0]
-    lo = build_state(rule, [(d, 0.0) for d, s in axes], layout)[0]
+    hi = build_state(rule, [(d, 2 * s) for d, s in axes], layout, rev=rev)[0]
+    lo = build_state(rule, [(d, 0.0) for d, s in axes], layout, rev=rev)[0]
     return (hi, lo)
   sketches = {}
-  if layout == "single":
-    for i, (d, s) in enumerate(axes):
-      sketches["L%d" % i] = {"kernel": {"axes": {"0": _axis_entry(rule, d, s)}}}
-  else:
-    for i in range(0, len(axes), 2):
-      ax = {"0": _axis_entry(rule, *axes[i])}
-      if i + 1 < len(axes):
-        ax["1"] = _axis_entry(rule, *axes[i + 1])
-      sketches["L%d" % (i // 2)] = {"kernel": {"axes": ax}}
+  for i, (d, s) in enumerate(axes):
+    layer, ax = locate(layout, i, len(axes), rev)
+    sketches.setdefault(layer, {"kernel": {"axes": {}}})["kernel"]["axes"][
+        str(ax)] = _axis_entry(rule, d, s)
   return ({"inner_state": {"0": {"direction": {"1": {"sketches": sketches}}}}},)
 
 
-def locate(layout, i):
+def locate(layout, i, n=0, rev=False):
   if layout == "single":
-    return "L%d" % i, 0
-  return "L%d" % (i // 2), i % 2
+    return "L%d" % ((n - 1 - i) if rev else i), 0
+  nl = (n + 1) // 2
+  return "L%d" % ((nl - 1 - i // 2) if rev else i // 2), i % 2
 
 
-def check_instance(acc, rule, axes, layout, base_rank, averaged=False):
+def check_instance(acc, rule, axes, layout, base_rank, averaged=False,
+                   rev=False):
   from precondition.tearfree import reallocation
   case = {"rule": rule, "axes": [list(a) for a in axes], "layout": layout,
-          "base_rank": base_rank, "running_average": averaged}
-  sig = "C17|%s|%s|%s|%d|%d" % (rule, axes, layout, base_rank, averaged)
+          "base_rank": base_rank, "running_average": averaged,
+          "reversed_names": rev}
+  sig = "C17|%s|%s|%s|%d|%d|%d" % (rule, axes, layout, base_rank, averaged,
+                                   rev)
   acc.transitions += 1
-  states = build_state(rule, axes, layout, averaged)
+  states = build_state(rule, axes, layout, averaged, rev)
   try:
     res = reallocation.create_redist_dict("", [-1], rule, averaged, base_rank,
                                           states)
@@ -103,7 +104,7 @@ def check_instance(acc, rule, axes, layout, base_rank, averaged=False):
   groups = {}
   bad = None
   for i, (d, _) in enumerate(axes):
-    layer, ax = locate(layout, i)
+    layer, ax = locate(layout, i, len(axes), rev)
     r = res[layer]["kernel"][ax]
     try:
       is_int = (int(r) == r) and not isinstance(r, (float, bool))
@@ -184,7 +185,8 @@ def plan(tier, seed):
                       "part": "float32_adversarial", "weight": 5 ** n})
   return {
       "tasks": tasks,
-      "rule": "every (dims, scores) multiset of n axes x layout x base rank "
+      "rule": "every (dims, scores) multiset of n axes x layout x layer naming "
+              "{forward, reversed} x base rank "
               "1..max(dim)+1 x scoring rule; non-trivial = at least two axes "
               "in one group with different scores or base rank >= 2",
       "bounds": {"max_axes": maxn, "dims": DIMS, "scores": scores,
@@ -218,6 +220,10 @@ def run_task(task):
         if base_rank >= 2 or len({s for _, s in axes}) > 1:
           acc.nontrivial += 1
         check_instance(acc, rule, list(axes_true), layout, base_rank)
+        if n > 1:
+          acc.states += 1
+          check_instance(acc, rule, list(axes_true), layout, base_rank,
+                         rev=True)
         if base_rank == 2 and rule in ("sketch_trace", "tail_rho",
                                        "ggt_trace"):
           acc.states += 1
